@@ -56,6 +56,12 @@ const pathCap = 200000
 // pathsTo enumerates acyclic paths from 'from' to 'to'. ok=false if the cap
 // was hit.
 func pathsTo(from, to *ssa.BasicBlock, visit func(p pathAtoms) bool) (n int, ok bool) {
+	return pathsToFrom(nil, from, to, visit)
+}
+
+// pathsToFrom is pathsTo where the first block is entered through the edge
+// pred->from (so that from's phis are bound to that edge's values).
+func pathsToFrom(pred, from, to *ssa.BasicBlock, visit func(p pathAtoms) bool) (n int, ok bool) {
 	ok = true
 	onPath := map[*ssa.BasicBlock]bool{}
 	var atoms []atom
@@ -200,7 +206,13 @@ func pathsTo(from, to *ssa.BasicBlock, visit func(p pathAtoms) bool) (n int, ok 
 			}
 		}
 	}
-	dfs(from, nil)
+	if pred != nil {
+		if i := ifOf(pred); i != nil && pred.Succs[0] != pred.Succs[1] {
+			v, p := unNot(i.Cond, pred.Succs[0] == from)
+			atoms = append(atoms, atom{v, p})
+		}
+	}
+	dfs(from, pred)
 	return n, ok
 }
 
